@@ -66,7 +66,7 @@ def gen_scenario(rng, sid):
     n0 = rng.choice([1, 3, 6, 10])
     old_rgs = min(n0, rng.choice([1, 2, 3]))
     if rng.random() < 0.25:                 # part numbers with two digits (10, 11, ...): numeric vs textual ordering
-        n0 = rng.choice([11, 12, 14, 23])
+        n0 = rng.choice([11, 12, 13])
         old_rgs = n0 - rng.choice([0, 0, 1])
     new_parts = rng.choice([1, 2, 3, 4])
     n1 = new_parts * rng.choice([1, 2, 3])
@@ -271,7 +271,9 @@ def run_scenario(arg):
         hangs = 0
         for k in range(1, n + 1):
             for v in VARIANTS[kinds[k - 1]]:
-                out["runs"].append(one(k, v, False))
+                # every 23rd interrupted run is recorded WITH the written data, so that the FS model (incl. what a failing call
+                # leaves behind: nothing / everything / a short write) is compared with the real directory on interrupted traces too
+                out["runs"].append(one(k, v, (k * 31 + len(v)) % 23 == 0))
                 hangs += out["runs"][-1]["read"] in ("hang", "died")
             if hangs >= 3:          # every one of them is reported; do not spend the budget waiting for more of the same
                 out["cut_short_after_hangs"] = k
@@ -330,8 +332,8 @@ def run(ctx):
     C.use_shadow()
     C.pqref()
     rng = ctx.rng
-    nsc = 24 if ctx.quick() else 240
-    ctx.rule = ("scenario = hive dataset (0..2 partition columns, 1..3 or 10..23 row groups, 0..2 earlier appends, codec/stats varied) + an append of 1..4 new "
+    nsc = 18 if ctx.quick() else 150
+    ctx.rule = ("scenario = hive dataset (0..2 partition columns, 1..3 or 10..13 row groups, 0..2 earlier appends, codec/stats varied) + an append of 1..4 new "
                 "row groups; for EVERY k = 1..N (N = number of mkdir/open-for-write/write/close calls the fault-free append issues) and every variant "
                 "(fail before the call has an effect / after it / short write) the real append runs with the k-th call failing, then a fresh open; "
                 "a case is (scenario, k, variant); the fault-free run of a scenario is the only trivial one")
